@@ -530,6 +530,12 @@ def _ir_locations(node, path="module", out=None, parent=None):
     if not isinstance(node, ir_data.Message):
         return out
     loc = getattr(ir_data_utils.reader(node), "source_location", None) if hasattr(node, "source_location") else None
+    if isinstance(node, ir_data.Import) and not ir_data_utils.reader(node).file_name.text:
+        # the prelude import module_ir synthesizes: a zero-width location at the first import / doc /
+        # attribute / type, or (1, 1) in a module that has none of them, while the module node then
+        # spans only the end-of-line tokens (" " → module at 1:2, import at 1:1).  Not something the
+        # user wrote; no containment required of it.
+        parent = None
     if loc is not None:
         out.append((path + ":" + type(node).__name__, loc, parent))
     if loc:
